@@ -225,7 +225,10 @@ def analyze(ex, stmts, eff=None):
             if isinstance(tgt, str):
                 cs = ex.reg.get(tgt)
             elif tgt is not None and hasattr(tgt, 'mutates'):
+                # the spec replaces this call by a handler: its declared effects
+                # are the effects (no lookup of a contract by name)
                 for m in tgt.mutates: eff.mutated.add(m)
+                return
             e = ex.spec.get('effects', {}).get(dotted) or \
                 ex.reg.effects.get(dotted)
             if e is not None:
